@@ -1,7 +1,18 @@
-"""P_acc2 -- third wave, accumulators: the parts of C09 / C04 / C10 / C19 that were bounded-only after P_acc.py.
+"""P_acc2 -- third wave, accumulators and groups: the parts of C09 / C04 / C10 / C19 that were bounded-only after P_acc.py,
+P_sel.py, P_flow.py.  (Registered after P_ctx2.py: see register_group_plots.)
 
-  * lena/math/elements.py  Vectorize.__init__ (components, LenaTypeError conditions, reset installed iff every component can
-    be reset) + the lemma `reset() equals a new Vectorize over new components`.
+  lena/math/elements.py        Vectorize.__init__ (components, LenaTypeError conditions, reset installed iff every component can
+                               be reset) + lemma reset() == new element; Mean with a user sum_seq (__init__, fill, compute,
+                               reset, _reset_missing) + lemma; DSum.fill once more with a termination argument
+  lena/structures/graph.py     the element Graph: __init__, fill, _update, compute, reset (two views: no scale / any scale) + lemma
+  lena/structures/histogram.py Histogram.__init__ / reset with make_bins + lemma
+  lena/flow/group_plots.py     group_plots, _update_with_group, GroupPlots.run
+  lena/flow/functions.py       seq_map;   lena/flow/group_by.py  _GroupBy.fill / update;   lena/flow/group_scale.py  GroupScale
+Findings on the unchanged tree (contracts with props=[], each ends in `failed` obligations):
+  Vectorize.__init__#any-dim   a dimension < 1 (other than the marker -1) silently builds a ONE-component element
+  Mean_falsy.reset             a sum element that is false as an object: the internal sum survives reset()
+Engine additions made for this module: pyvc/lib_acc2.py (sorted, make_bins, lists / sets of context values, dec_digits,
+warnings.warn), pyvc/vmembers.py (obj_attrs, v[k], emit_closed), and small hooks named there.
 """
 from pyvc.contracts import Contract, LoopSpec, ClassSpec
 from pyvc.verify import Lemma
@@ -21,6 +32,15 @@ def register(ix):
     ix.spec_names["attr_of"] = sp_attr_of
     register_vectorize_init(ix)
     register_graph_el(ix)
+    register_histogram_make_bins(ix)
+    register_group_plots(ix)
+    register_update_with_group(ix)
+    register_seq_map(ix)
+    register_old_group_by(ix)
+    register_group_plots_el(ix)
+    register_group_scale(ix)
+    register_dsum_termination(ix)
+    register_mean_seq(ix)
 
 
 # ---------------------------------------------------------------------------------------------- Vectorize.__init__
@@ -153,46 +173,570 @@ CDIM = "(len({p}[0]) if hasattr({p}[0], '__len__') else 1)"
 
 
 def register_graph_el(ix):
+    """`Graph`: the (deprecated) element that collects points.  fill: `Fill the graph with value.  Value can be a (data,
+    context) tuple`: one more point, the data part, kept in the order of the fills; the context of the value becomes the
+    current one.  compute: `Yield graph with context.  If sort was initialized True, graph points will be sorted`: the very
+    element and a context that is a deep copy of the current one (C04) extended by the element's own keys scale and dim.
+    reset: `Reset points to an empty list and current context to an empty dict`, and the scale to the one given at
+    initialization (`a scale taken from the flow context belongs to the old data`).
+    Points are abstract flow values; a point must be a (coordinate, value) pair (`Data part must be a (coordinates, value)
+    pair`): has_vitem(p, 0).  Sorting is python's sorted() (library contract pyvc/lib_acc2.py).
+    Two views: `Graph` -- no scale given and none in the flow (the default); `Graph_s` -- arbitrary scales (context values)."""
     from pyvc import lib_acc2
     lib_acc2.register(ix)            # sorted_of(xs), sortable(xs): library contract of sorted() on flow values
     ix.spec_names["has_vitem"] = sp_has_vitem
-    F = {"_points": "Lst[V]", "_cur_context": "Dict", "_scale": "Val", "_init_context": "KwDict[scale:Val]", "_sort": "Bool"}
-    ix.add_class(ClassSpec("Graph", GR, fields=F, invariant=["isdict(self._cur_context)"]))
-    ix.add(Contract(GR, "Graph.fill", props=["C09"],
-                    cases=[
-                        Contract(GR, "Graph.fill", name="Graph.fill[(data, context)]",
-                                 params={"self": "Self[Graph]", "value": "Tuple[V,Dict]"}, requires=["isdict(value[1])"],
-                                 ensures=["len(self._points) == old(len(self._points)) + 1",
-                                          "all(self._points[k] == old(self._points)[k] for k in range(old(len(self._points))))",
-                                          "self._points[len(self._points) - 1] == value[0]", "self._cur_context is value[1]"],
-                                 modifies=["self._points", "self._cur_context"]),
-                    ]))
-    ix.add(Contract(GR, "Graph.reset", props=["C09"], params={"self": "Self[Graph]"},
-                    ensures=["len(self._points) == 0", "self._cur_context == emptydict()"],
-                    modifies=["self._points", "self._cur_context", "self._scale"]))
+    FA = {"_points": "Lst[V]", "_cur_context": "Dict", "_scale": "None", "_init_context": "KwDict[scale:None]", "_sort": "Bool"}
+    FB = dict(FA, _scale="Val", _init_context="KwDict[scale:Val]")
+    ix.add_class(ClassSpec("Graph", GR, fields=FA, invariant=["isdict(self._cur_context)"]))
+    ix.add_class(ClassSpec("Graph_s", GR, fields=FB, alias_of="Graph", invariant=["isdict(self._cur_context)"]))
     CS = "self._cur_context.get('scale')"
+    VIEWS = [("Graph", "no scale", ["%s is None" % CS]), ("Graph_s", "any scale", [])]
+    # ---- fill
+    APPENDED = ["len(self._points) == old(len(self._points)) + 1",
+                "all(self._points[k] == old(self._points)[k] for k in range(old(len(self._points))))"]
+
+    def fill_cases(view, tag):
+        return [Contract(GR, "Graph.fill", name="Graph.fill[(data, context), %s]" % tag,
+                         params={"self": "Self[%s]" % view, "value": "Tuple[V,Dict]"}, requires=["isdict(value[1])"],
+                         ensures=APPENDED + ["self._points[len(self._points) - 1] == value[0]", "self._cur_context is value[1]"],
+                         modifies=["self._points", "self._cur_context"]),
+                Contract(GR, "Graph.fill", name="Graph.fill[bare data, %s]" % tag,
+                         params={"self": "Self[%s]" % view, "value": "V"}, requires=["not v_has_context(value)"],
+                         ensures=APPENDED + ["self._points[len(self._points) - 1] == value", "self._cur_context == emptydict()"],
+                         modifies=["self._points", "self._cur_context"])]
+    ix.add(Contract(GR, "Graph.fill", props=["C09"], cases=fill_cases("Graph", "no scale")))
+    ix.add(Contract(GR, "Graph.fill", qualkey="Graph_s.fill", props=["C09"], cases=fill_cases("Graph_s", "any scale")))
+    # ---- reset
+    ix.add(Contract(GR, "Graph.reset", props=["C09"], params={"self": "Self[Graph]"},
+                    ensures=["len(self._points) == 0", "self._cur_context == emptydict()", "self._scale is None"],
+                    modifies=["self._points", "self._cur_context", "self._scale"]))
+    ix.add(Contract(GR, "Graph.reset", qualkey="Graph_s.reset", name="Graph.reset[any scale]", props=["C09"],
+                    params={"self": "Self[Graph_s]"},
+                    ensures=["len(self._points) == 0", "self._cur_context == emptydict()",
+                             "self._scale == self._init_context['scale']"],
+                    modifies=["self._points", "self._cur_context", "self._scale"]))
+    # ---- _update / compute
     PAIRS = "all(has_vitem(self._points[k], 0) for k in range(len(self._points)))"
     BAD_SCALE = "(%s is not None and self._scale is not None and self._scale != %s)" % (CS, CS)
     UNSORTABLE = "(self._sort and not sortable(self._points))"
+
     def mixed(pts):
         return "(len(%s) > 0 and not all(%s == %s for k in range(len(%s))))" % (
             pts, CDIM.format(p=pts + "[k]"), CDIM.format(p=pts + "[0]"), pts)
     MIXED = "((self._sort and %s) or (not self._sort and %s))" % (mixed("sorted_of(self._points)"), mixed("self._points"))
-    ix.add(Contract(GR, "Graph._update", props=["C09"], params={"self": "Self[Graph]"},
-                    ghost={"v_members": VM}, requires=[PAIRS],
-                    raises={"LenaRuntimeError": BAD_SCALE,
-                            "TypeError": "not %s and %s" % (BAD_SCALE, UNSORTABLE),
-                            "LenaValueError": "not %s and not %s and %s" % (BAD_SCALE, UNSORTABLE, MIXED)},
-                    ensures=["self._sort implies same(self._points, sorted_of(old(self._points)))",
-                             "not self._sort implies same(self._points, old(self._points))",
-                             # a scale found in the context of the flow is taken over
-                             "%s is not None implies self._scale == %s" % (CS, CS),
-                             "%s is None implies self._scale == old(self._scale)" % CS,
-                             # the context handed out: a deep copy of the current one, with the scale and the dimension
-                             "is_deep_copy(self._context)", "self._context is not self._cur_context",
-                             "all_keys(lambda k: k == 'scale' or k == 'dim' or item(self._context, k) == item(self._cur_context, k))",
-                             "item(self._context, 'scale') == present(self._scale)",
-                             "len(self._points) > 0 implies self.dim == %s and item(self._context, 'dim') == present(self.dim)"
-                             % CDIM.format(p="self._points[0]"),
-                             "len(self._points) == 0 implies item(self._context, 'dim') == item(self._cur_context, 'dim')"],
-                    modifies=["self._points", "self._scale", "self._context", "self.dim"]))
+    RAISES = {
+        # `Initialization and context scale differ`
+        "LenaRuntimeError": BAD_SCALE,
+        # python's sorted() on points that cannot be compared
+        "TypeError": "not %s and %s" % (BAD_SCALE, UNSORTABLE),
+        # `coordinates tuples must have same dimension`
+        "LenaValueError": "not %s and not %s and %s" % (BAD_SCALE, UNSORTABLE, MIXED)}
+    UPDATED = [
+        # `If sort was initialized True, graph points will be sorted` -- and otherwise they keep the order of the fills
+        "self._sort implies same(self._points, sorted_of(old(self._points)))",
+        "not self._sort implies same(self._points, old(self._points))",
+        # a scale found in the context of the flow is taken over
+        "old(%s) is not None implies self._scale == old(%s)" % (CS, CS),
+        "old(%s) is None implies self._scale == old(self._scale)" % CS,
+        "self._cur_context == old(self._cur_context)"]
+    # the context handed out: the current one, extended only by the element's own keys scale and dim
+    CONTEXT = ["all_keys(lambda k: k == 'scale' or k == 'dim' or item({c}, k) == item(self._cur_context, k))",
+               "item({c}, 'scale') == present(self._scale)",
+               "len(self._points) > 0 implies self.dim == %s and item({c}, 'dim') == present(self.dim)" % CDIM.format(p="self._points[0]"),
+               "len(self._points) == 0 implies item({c}, 'dim') == item(self._cur_context, 'dim')"]
+    MOD = ["self._points", "self._scale", "self._context", "self.dim"]
+
+    def update_case(view, tag, req):
+        return Contract(GR, "Graph._update", name="Graph._update[%s]" % tag, params={"self": "Self[%s]" % view},
+                        ghost={"v_members": VM}, requires=[PAIRS] + req, raises=dict(RAISES),
+                        ensures=UPDATED + [c.format(c="self._context") for c in CONTEXT] +
+                        ["self._context is not self._cur_context"] + (["is_deep_copy(self._context)"] if view == "Graph" else []),
+                        modifies=MOD)
+    ix.add(Contract(GR, "Graph._update", props=["C09"], inline=True, cases=[update_case(v, t, r) for v, t, r in VIEWS]))
+
+    def compute_case(view, tag, req):
+        return Contract(GR, "Graph.compute", name="Graph.compute[%s]" % tag, params={"self": "Self[%s]" % view},
+                        generator=True, yields="Any", ghost={"v_members": VM}, requires=[PAIRS] + req, raises=dict(RAISES),
+                        at_yield=["yielded[0] is self", "is_fresh(yielded[1])", "yielded[1] is not self._cur_context"] +
+                        # C04: the yielded context shares nothing with the context that was filled
+                        (["is_deep_copy(yielded[1])"] if view == "Graph" else []),
+                        ensures=["len(out) == 1", "len(out[0]) == 2", "out[0][0] is self"] + UPDATED +
+                        [c.format(c="out[0][1]") for c in CONTEXT],
+                        modifies=MOD)
+    ix.add(Contract(GR, "Graph.compute", props=["C09", "C04"], cases=[compute_case(*VIEWS[0])]))
+    ix.add(Contract(GR, "Graph.compute", qualkey="Graph_s.compute", props=["C09", "C04"], cases=[compute_case(*VIEWS[1])]))
+    # ---- __init__
+    ix.add_class(ClassSpec("Graph0", GR, fields={}, alias_of="Graph"))
+    IMOD = ["self._points", "self._scale", "self._init_context", "self._cur_context", "self._sort", "self._rescale_value",
+            "self._context", "self.dim"]
+
+    def init_case(cty, sty, tag, extra):
+        return Contract(
+            GR, "Graph.__init__", name="Graph.__init__[no points, context:%s, %s]" % (cty, tag),
+            params={"self": "Self[Graph0]", "points": "None", "context": cty, "scale": sty, "sort": "Bool"},
+            defaults={"points": None, "context": None, "scale": None, "sort": True}, ghost={"v_members": VM},
+            # `context must be a dict`; a scale in that context must agree with the one given
+            raises={"LenaTypeError": "False" if cty == "None" else "not isdict(context)",
+                    "LenaRuntimeError": "False" if cty == "None" else
+                    "isdict(context) and context.get('scale') is not None and scale is not None and scale != context.get('scale')"},
+            ensures=["len(self._points) == 0", "self._sort == sort", "self._init_context['scale'] == scale",
+                     "self._cur_context == emptydict()" if cty == "None" else "self._cur_context is context"] + extra,
+            modifies=IMOD)
+    ix.add(Contract(GR, "Graph.__init__", props=["C09"], cases=[
+        init_case("None", "None", "no scale", ["self._scale is None"]),
+        init_case("None", "Val", "scale", ["self._scale == scale"]),
+        init_case("Dict", "Val", "scale", ["context.get('scale') is None implies self._scale == scale",
+                                           "context.get('scale') is not None implies self._scale == context.get('scale')"])]))
+    from contracts.P_acc import reset_equals_new
+    ix.lemmas.append(Lemma(
+        "Graph: reset() equals a newly constructed element", GR, ["C09"],
+        reset_equals_new("Graph", "reset", ["len(self._points)", "self._cur_context", "self._scale", "self._init_context['scale']"],
+                         lambda ip, st, a: [NONE_(), NONE_(), NONE_(), st.heap[a.cid].fields["_sort"]]),
+        notes="default view (no scale): points, current context and scale after reset() equal those of Graph(sort=the element's sort)"))
+
+
+def NONE_():
+    from pyvc.sym import NONE
+    return NONE
+
+
+# ---------------------------------------------------------------------------------------------- Histogram with make_bins
+HI = "lena/structures/histogram.py"
+
+
+def register_histogram_make_bins(ix):
+    """`make_bins is a function without arguments that creates new bins (it will be called during __init__ and reset).
+    initial_value in this case is ignored, but bin check is made.  If both bins and make_bins are provided, LenaTypeError is
+    raised.`  reset: `Current context is reset to an empty dict.  Bins are reinitialized ... with make_bins()`.
+    The user's function is an assumption (pyvc/lib_acc2.py: a new list with the same content on every call); one-dimensional."""
+    import contracts.C06 as C06
+    from pyvc import lib_acc2
+    lib_acc2.register_make_bins(ix)
+    MB = "Lib[user.make_bins]"
+    P = ix.classes["Histogram"]
+    F = dict(P.fields, _make_bins=MB, _initial_bins="None")
+    # (the bin check of __init__ passed: the bins the function makes fit the edges)
+    ix.add_class(ClassSpec("Histogram_mb", HI, fields=F, alias_of="Histogram",
+                           invariant=list(P.invariant) + ["len(made_bins()) == len(self._hist.edges) - 1"]))
+    NEW = ["self._hist is not old(self._hist)",          # `a new structure ... earlier yielded histograms stay intact`
+           "self._hist.edges == old(self._hist.edges)", "self._hist.n_out_of_range == 0", "self._hist.dim == 1",
+           "self._cur_context == emptydict()", "self._hist.bins == made_bins()"]
+    ix.add(Contract(HI, "Histogram.reset", qualkey="Histogram_mb.reset", name="Histogram.reset[make_bins]", props=["C09"],
+                    params={"self": "Self[Histogram_mb]"}, ensures=NEW, modifies=["self._hist", "self._cur_context"]))
+    BAD_EDGES = "len(edges) <= 1 or not " + C06.incr("edges")
+    IMOD = ["self._hist", "self._cur_context", "self._initial_bins", "self._initial_value", "self._make_bins"]
+    ix.add(Contract(
+        HI, "Histogram.__init__", qualkey="Histogram_mb.__init__", props=["C09"],
+        cases=[
+            Contract(HI, "Histogram.__init__", name="Histogram.__init__[make_bins]",
+                     params={"self": "Self[Histogram0]", "edges": "Lst[Real]", "bins": "None", "make_bins": MB, "initial_value": "Real"},
+                     defaults={"bins": None, "initial_value": 0},
+                     # `bin check is made`
+                     raises={"LenaValueError": BAD_EDGES + " or len(made_bins()) != len(edges) - 1"},
+                     ensures=["self._hist.edges == edges", "self._hist.bins == made_bins()", "self._hist.n_out_of_range == 0",
+                              "self._hist.dim == 1", "self._cur_context == emptydict()", "self._initial_bins is None",
+                              "self._make_bins is make_bins", "len(made_bins()) == len(self._hist.edges) - 1"],
+                     modifies=IMOD),
+            Contract(HI, "Histogram.__init__", name="Histogram.__init__[bins and make_bins]",
+                     params={"self": "Self[Histogram0]", "edges": "Lst[Real]", "bins": "Lst[Real]", "make_bins": MB, "initial_value": "Real"},
+                     defaults={"initial_value": 0},
+                     raises={"LenaTypeError": "True"}, modifies=IMOD),
+        ]))
+
+    def same_config(ip, st, a):
+        from pyvc.sym import NONE
+        h = st.heap[st.heap[a.cid].fields["_hist"].cid]
+        return [h.fields["edges"], NONE, st.heap[a.cid].fields["_make_bins"], st.heap[a.cid].fields["_initial_value"]]
+    from contracts.P_acc import reset_equals_new
+    ix.lemmas.append(Lemma(
+        "Histogram[make_bins]: reset() equals a newly constructed element", HI, ["C09"],
+        reset_equals_new("Histogram_mb", "reset", ["self._hist.edges", "self._hist.bins", "self._hist.n_out_of_range",
+                                                   "self._hist.dim", "self._cur_context"], same_config),
+        notes="one-dimensional, bins from make_bins (assumed to make the same bins on every call); the new element is built "
+              "from the same edges and the same make_bins"))
+
+
+# ---------------------------------------------------------------------------------------------- group_plots / MapGroup
+GP = "lena/flow/group_plots.py"
+
+
+CF = "lena/context/functions.py"
+
+
+def sp_opt_truthy(ip, st, pos, kws):
+    """opt_truthy(o): the optional context value o is there and true (what `if get_recursively(c, key, False)` tests)"""
+    from pyvc.smt import T
+    from pyvc.sym import Bool
+    o = pos[0].t.s
+    return Bool(T("(and (not (= %s none)) (vtruthy (the %s)))" % (o, o), "Bool"))
+
+
+# context.output.changed of member k of `group`, looked up as get_recursively does (reference `walk` of C08)
+WALK_CHANGED = "walk({c}, dot_components('output.changed'), 0, len(dot_components('output.changed')))"
+MEMBER_CHANGED = "opt_truthy(%s)" % WALK_CHANGED.format(c="local(contexts)[k]")
+# (inter_all is an uninterpreted function of the list TERM: the clauses name the function's own list of the members' contexts)
+INTER = "inter_all(local(contexts))"
+_ANYM = "any(opt_truthy(%s) for k in range(len(as_vlist({c}['group']))))" % WALK_CHANGED.format(c="as_vlist({c}['group'])[k]")
+GROUP_FLAG = ["opt_truthy(ctx_get({c}, 'output', 'changed')) implies " + _ANYM,
+              _ANYM + " implies opt_truthy(ctx_get({c}, 'output', 'changed'))"]
+
+
+def register_group_plots(ix):
+    ix.spec_names["opt_truthy"] = sp_opt_truthy
+    # update_recursively(d, "output.changed", value): the dotted-string form with a value.  P_ctx2.py proves the general case
+    # (`update_recursively[d, dotted string, value]`); when that module is not registered (before this one) the effect on
+    # output.changed is taken from the docstring as an assumed case for this very key
+    ur = ix.by_key[(CF, "update_recursively")]
+    if not ur.cases:
+        import copy
+        base = copy.copy(ur)
+        base.cases = None
+        ur.cases = [base]
+    if not any(c.name == "update_recursively[d, 'output.changed', value]" for c in ur.cases):
+        # ASSUMED for this very key (first case: chosen by argument fit).  P_ctx2.py proves the general dotted-string case
+        # (d == upd(old(d), nestk(split_dots(other), ..))); at the calls in group_plots / _update_with_group the solvers do not
+        # get from that form to the items of d.output within the time limit (the nested instance of the definition of upd
+        # is missing), so the effect on the items is stated directly, from the docstring
+        ur.cases.insert(0, Contract(
+            CF, "update_recursively", name="update_recursively[d, 'output.changed', value]", props=[], trusted=True,
+            dict_model="Val", params={"d": "Dict", "other": "Str['output.changed']", "value": "Val"}, result=None,
+            raises={"LenaTypeError": "not isdict(d)"}, raises_frame="pure",
+            ensures=["isdict(d)", "all_keys(lambda k: k == 'output' or item(d, k) == item(old(d), k))",
+                     "ctx_get(d, 'output', 'changed') == present(value)",
+                     "all_keys(lambda k: k == 'changed' or ctx_get(d, 'output', k) == ctx_get(old(d), 'output', k))"],
+            modifies=["d"],
+            notes="assumed (stand-in for the proved general case of P_ctx2.py): docstring of update_recursively with a "
+                  "dotted string and a value -- only d.output.changed is set, sub-dictionaries are created as needed"))
+    from pyvc import lib_acc2
+    lib_acc2.register_ctx_lists(ix)
+    # intersection(*list of dictionaries) (assumed in C13.py as the uninterpreted inter_all): `This function always returns a
+    # dictionary` (docstring) -- one more clause of that assumed contract
+    iv = ix.by_key.get((CF, "intersection#variadic"))
+    if iv is not None and "isdict(result)" not in iv.ensures:
+        iv.ensures.append("isdict(result)")
+    ix.add(Contract(
+        GP, "group_plots", props=["C19", "C10"], dict_model="Val", ghost={"ctx_lists": True},
+        params={"group": "Lst[V]"}, result="Tuple[Lst[V],Dict]",
+        ensures=[
+            # `Return data parts of the group`: one per member, in order
+            "len(result[0]) == len(group)", "all(result[0][k] == dataof(group[k]) for k in range(len(group)))",
+            # context.group lists the members' contexts (in order) ...
+            "is_vlist(result[1]['group'])", "len(as_vlist(result[1]['group'])) == len(group)",
+            "all(as_vlist(result[1]['group'])[k] == vctx(group[k]) for k in range(len(group)))",
+            # ... `If any of values has been changed, context.output.changed of the group is set to True` (False otherwise)
+            # (member k's context is local(contexts)[k] == vctx(group[k]): the clauses about `contexts` below)
+            "local(changed) == any(%s for k in range(len(local(contexts))))" % MEMBER_CHANGED,
+            "ctx_get(result[1], 'output', 'changed') == present(local(changed))",
+            # (the same, stated on the result alone: the flag of the group is the OR of the flags of the contexts it lists)
+            GROUP_FLAG[0].format(c="result[1]"), GROUP_FLAG[1].format(c="result[1]"),
+            # ... and the rest is the intersection of the members' contexts (`contexts`: one per member, in order)
+            "len(local(contexts)) == len(group)", "all(local(contexts)[k] == vctx(group[k]) for k in range(len(group)))",
+            "all_keys(lambda k: k == 'output' or k == 'group' or item(result[1], k) == item(%s, k))" % INTER,
+            "all_keys(lambda k: k == 'changed' or ctx_get(result[1], 'output', k) == ctx_get(%s, 'output', k))" % INTER]))
+
+
+def register_update_with_group(ix):
+    """_update_with_group(context, new_grp_context, old_inter_context) (MapGroup.run): `Common changes of group context
+    update common context (that of the value).  context.output.changed is set appropriately` -- the changed flags of the
+    value and of the new members are combined: True if any is true, else False if one of them IS False (`this is known, not
+    None`), else left as the update made it; context.group becomes the list of the new members' contexts."""
+    W = WALK_CHANGED
+    ANY_TRUE = "(opt_truthy(%s) or any(opt_truthy(%s) for k in range(len(new_grp_context))))" % (
+        W.format(c="old(context)"), W.format(c="new_grp_context[k]"))
+    ANY_FALSE = "(%s == present(False) or any(%s == present(False) for k in range(len(new_grp_context))))" % (
+        W.format(c="old(context)"), W.format(c="new_grp_context[k]"))
+    UPDATED = "upd_spec(old(context), diff_spec(inter_all(new_grp_context), old_inter_context, -1))"
+    ix.add(Contract(
+        GP, "_update_with_group", props=["C19", "C10"], dict_model="Val", ghost={"ctx_lists": True},
+        params={"context": "Dict", "new_grp_context": "Lst[Val]", "old_inter_context": "Val"}, result=None,
+        requires=["isdict(context)", "isdict(old_inter_context)",
+                  "all(isdict(new_grp_context[k]) for k in range(len(new_grp_context)))"],
+        ensures=[
+            "isdict(context)", "isdict(%s)" % UPDATED,
+            # context.group lists the contexts of the new members
+            "is_vlist(context['group'])", "len(as_vlist(context['group'])) == len(new_grp_context)",
+            "all(as_vlist(context['group'])[k] == new_grp_context[k] for k in range(len(new_grp_context)))",
+            # what the members' contexts have in common now, but had not before, is added to the context of the value
+            "all_keys(lambda k: k == 'group' or k == 'output' or item(context, k) == item(%s, k))" % UPDATED,
+            "all_keys(lambda k: k == 'changed' or ctx_get(context, 'output', k) == ctx_get(%s, 'output', k))" % UPDATED,
+            # output.changed: the OR of the value's own flag and the members' flags
+            "%s implies ctx_get(context, 'output', 'changed') == present(True)" % ANY_TRUE,
+            "not %s implies %s implies ctx_get(context, 'output', 'changed') == present(False)" % (ANY_TRUE, ANY_FALSE),
+            "not %s implies not %s implies ctx_get(context, 'output', 'changed') == ctx_get(%s, 'output', 'changed')"
+            % (ANY_TRUE, ANY_FALSE, UPDATED)],
+        modifies=["context"]))
+
+
+# ---------------------------------------------------------------------------------------------- seq_map, _GroupBy, GroupPlots
+FF = "lena/flow/functions.py"
+GB = "lena/flow/group_by.py"
+
+
+def register_seq_map(ix):
+    """`For each value from the container, calculate seq.run([value]) ... If one_result is True, the result must be a single
+    value.  In this case, if results contain less than or more than one element, LenaValueError is raised.  The list of
+    results is returned.  The results are in the same order as read from the container.`"""
+    RUN = "el_run(seq, [container[k]])"
+    ix.add(Contract(
+        FF, "seq_map", props=["C19", "C10"],
+        params={"seq": "Obj", "container": "Lst[V]", "one_result": "Bool"}, result="Lst[V]",
+        defaults={"one_result": True}, requires=["one_result"],
+        raises={"LenaValueError": "any(len(%s) != 1 for k in range(len(container)))" % RUN},
+        ensures=["len(result) == len(container)", "all(result[k] == %s[0] for k in range(len(container)))" % RUN]))
+
+
+def register_old_group_by(ix):
+    """`_GroupBy` (the deprecated grouping element of GroupPlots): `Find the corresponding group and fill it with val.  A group
+    key is calculated by group_by.  If no such key exists, a new group is created.`  The key function is an abstract TOTAL
+    function from flow values to strings (Fn[V,Str]: it raises nothing, so the LenaValueError of a missing key is not
+    reachable in this model)."""
+    from pyvc import lib_acc2
+    lib_acc2.register_warn(ix)
+    ix.add_class(ClassSpec("_GroupBy", GB, fields={"groups": "KeyMap[V]", "_group_by": "Fn[V,Str]"}))
+    K = "self._group_by(val)"
+    G, G0 = "group(self.groups, %s)" % K, "old(group(self.groups, %s))" % K
+    FILLED = [
+        "has_group(self.groups, %s)" % K,
+        "not old(has_group(self.groups, %s)) implies len(%s) == 1 and %s[0] == val" % (K, G, G),
+        "old(has_group(self.groups, %s)) implies len(%s) == len(%s) + 1 and %s[len(%s)] == val and "
+        "all(%s[i] == %s[i] for i in range(len(%s)))" % (K, G, G0, G, G0, G, G0, G0),
+        "all_keys(lambda k: k == %s or (has_group(self.groups, k) == old(has_group(self.groups, k)) and "
+        "same(group(self.groups, k), old(group(self.groups, k)))))" % K]
+    for m in ("fill", "update"):          # (`update` is the deprecated name: it warns and fills)
+        ix.add(Contract(GB, "_GroupBy.%s" % m, props=["C19", "C10"],
+                        params={"self": "Self[_GroupBy]", "val": "V"}, ensures=FILLED, modifies=["self.groups"]))
+
+
+def register_group_plots_el(ix):
+    """GroupPlots.run: `Each item of the flow is checked with the selector.  If it is selected, it is added to groups.
+    Otherwise, it is yielded.  After the flow is finished, groups are yielded.  Groups are lists of items, which have same keys
+    returned from group_by.  Each group's context ... is inserted into a list in context.group.  If any element's
+    context.output.changed is True, the final context.output.changed is set to True (and to False otherwise).`
+    View: selector an abstract callable, group_by an abstract total key function (register_old_group_by), no scale,
+    transform an abstract sequence.  Reference of the grouping (recursive over the prefix of the flow):
+      gp_has(S, G, xs, n, k)    some selected value among xs[0..n) has the key k
+      gp_group(S, G, xs, n, k)  the selected values among xs[0..n) with key k, in the order of the flow"""
+    from pyvc.smt import T
+    from pyvc.sym import Opaque, Bool
+    from pyvc.speclib import lst_term, obj_term
+
+    def decls(ip, st, sel, keyfn):
+        from pyvc.histlib import call_absfn
+        reg = ip.reg
+        sort = reg.lst("V")
+        ix.spec_names["selected"](ip, st, [sel, Opaque(T("dflt_v_probe", "V"))], {})          # declares `selected`
+        probe = call_absfn(ip, st, keyfn, [Opaque(T("PROBE", "V"))], {})[0][1].t.s
+        fname = probe[1:].split()[0]
+        key = "(%s g (select (arr_%s xs) (- n 1)))" % (fname, sort)
+        hit = "(and (selected s (select (arr_{ls} xs) (- n 1))) (= {key} k))".format(ls=sort, key=key)
+        reg.fun_decl("gp_has", "(define-fun-rec gp_has ((s Obj) (g Obj) (xs {ls}) (n Int) (k Key)) Bool "
+                               "(ite (<= n 0) false (or (gp_has s g xs (- n 1) k) {hit})))".format(ls=sort, hit=hit))
+        reg.fun_decl("gp_group", "(define-fun-rec gp_group ((s Obj) (g Obj) (xs {ls}) (n Int) (k Key)) {ls} "
+                                 "(ite (<= n 0) {empty} (let ((p (gp_group s g xs (- n 1) k))) (ite {hit} "
+                                 "(mk_{ls} (store (arr_{ls} p) (len_{ls} p) (select (arr_{ls} xs) (- n 1))) (+ (len_{ls} p) 1)) p))))".format(
+                                     ls=sort, hit=hit, empty=reg.l_empty_canonical(sort).s))
+        return sort
+
+    def args5(ip, st, pos):
+        sort = decls(ip, st, pos[0], pos[1])
+        return "%s %s %s %s %s" % (obj_term(pos[0]).s, pos[1].obj.t.s, lst_term(ip, st, pos[2], sort).s, ip.num(pos[3]).s,
+                                    ip.key_term(pos[4]).s)
+
+    def sp_gp_has(ip, st, pos, kws):
+        return Bool(T("(gp_has %s)" % args5(ip, st, pos), "Bool"))
+
+    def sp_gp_group(ip, st, pos, kws):
+        a = args5(ip, st, pos)
+        return ip.lst_view(T("(gp_group %s)" % a, ip.reg.lst("V")))
+    ix.spec_names["gp_has"] = sp_gp_has
+    ix.spec_names["gp_group"] = sp_gp_group
+
+    ix.add_class(ClassSpec("GroupPlots", GP, fields={"_selector": "Obj", "_group_by": "Inst[_GroupBy]", "_scale": "None",
+                                                     "_transform": "Obj", "_yield_selected": "Bool"}))
+    X, S, KF, G = "content(flow)", "self._selector", "self._group_by._group_by", "self._group_by.groups"
+    REF = "%s, %s, %s, {n}, k" % (S, KF, X)
+    GROUPED = ["all_keys(lambda k: has_group(%s, k) == gp_has(%s))" % (G, REF),
+               "all_keys(lambda k: implies(has_group(%s, k), group(%s, k) == gp_group(%s)))" % (G, G, REF),
+               # (a key without a group: no selected value with that key so far)
+               "all_keys(lambda k: implies(not has_group(%s, k), len(gp_group(%s)) == 0))" % (G, REF)]
+    M = "group(%s, _key)" % G                     # the members of the group being yielded
+    R = "el_run(self._transform, [%s[k]])" % M    # what the transform makes of member k
+    ix.add(Contract(
+        GP, "GroupPlots.run", props=["C19", "C10"], dict_model="Val",
+        ghost={"ctx_lists": True, "v_copy_distinct": True},
+        params={"self": "Self[GroupPlots]", "flow": "Iter[V]"}, generator=True, yields="Any",
+        requires=["pulled(flow) == 0", "all_keys(lambda k: not has_group(%s, k))" % G],
+        raises={"Exception": "?", "LenaValueError": "?"},
+        loops={0: LoopSpec(invariant=["pulled(flow) == _i"] + [c.format(n="_i") for c in GROUPED]),
+               1: LoopSpec(invariant=["pulled(flow) == len(%s)" % X] + [c.format(n="len(%s)" % X) for c in GROUPED],
+                           # every group visited gives exactly one value
+                           body_ghost={"_yc1": "yield_count()"}, body_end=["yield_count() == _yc1 + 1"])},
+        at_yield=[
+            # ---- while the flow is read: a value that is not selected is handed on as the very same object, a selected one
+            # only as a deep copy and only if yield_selected
+            "in_loop(0) implies pulled(flow) == _i0 + 1",
+            "in_loop(0) and not selected(%s, %s[_i0]) implies yielded is %s[_i0]" % (S, X, X),
+            "in_loop(0) and selected(%s, %s[_i0]) implies self._yield_selected and yielded == deepcopy_v(%s[_i0])" % (S, X, X),
+            # ---- afterwards: one value per group -- the group_plots of its transformed members
+            "in_loop(1) implies has_group(%s, _key) and not seen(_key)" % G,
+            "in_loop(1) implies len(yielded[0]) == len(%s) and all(yielded[0][k] == dataof(%s[0]) for k in range(len(%s)))" % (M, R, M),
+            "in_loop(1) implies len(as_vlist(yielded[1]['group'])) == len(%s) and "
+            "all(as_vlist(yielded[1]['group'])[k] == vctx(%s[0]) for k in range(len(%s)))" % (M, R, M),
+            # `If any element's context.output.changed is True, the final context.output.changed is set to True (and to False
+            # otherwise)`
+            "in_loop(1) implies " + GROUP_FLAG[0].format(c="yielded[1]"),
+            "in_loop(1) implies " + GROUP_FLAG[1].format(c="yielded[1]")],
+        # ... and every group is visited
+        ensures=["pulled(flow) == len(%s)" % X, "all_keys(lambda k: implies(has_group(%s, k), seen(k)))" % G] +
+        [c.format(n="len(%s)" % X) for c in GROUPED],
+        modifies=["flow", "self._group_by.groups"]))
+
+
+GS = "lena/flow/group_scale.py"
+
+
+def register_group_scale(ix):
+    """GroupScale: `If a number is given, group items are scaled to that` (scale_to itself: contracts/P_hist2.py, C12).
+    __call__: `Scale the group.  If group is not iterable, LenaValueError is raised` -- and the group itself is handed back."""
+    ix.add_class(ClassSpec("GroupScale0", GS, fields={}, alias_of="GroupScale"))
+    ix.add_class(ClassSpec("GroupScale", GS, fields={"_scale_to": "Real", "_allow_zero_scale": "Bool", "_allow_unknown_scale": "Bool"}))
+    ix.add(Contract(GS, "GroupScale.__init__", props=["C19"],
+                    params={"self": "Self[GroupScale0]", "scale_to": "Real", "allow_zero_scale": "Bool", "allow_unknown_scale": "Bool"},
+                    defaults={"allow_zero_scale": False, "allow_unknown_scale": False},
+                    ensures=["self._scale_to == scale_to", "self._allow_zero_scale == allow_zero_scale",
+                             "self._allow_unknown_scale == allow_unknown_scale"],
+                    modifies=["self._scale_to", "self._allow_zero_scale", "self._allow_unknown_scale"]))
+    H = "group[0][0]"
+    ix.add(Contract(
+        GS, "GroupScale.__call__", props=["C19"], dict_model="Val",
+        cases=[
+            Contract(GS, "GroupScale.__call__", name="GroupScale.__call__[not a list or tuple]",
+                     params={"self": "Self[GroupScale]", "group": "Real"}, raises={"LenaValueError": "True"}),
+            Contract(GS, "GroupScale.__call__", name="GroupScale.__call__[one histogram]", dict_model="Val",
+                     params={"self": "Self[GroupScale]", "group": "PyList[1,Tuple[Inst[histogram_scaled],Dict]]"},
+                     result="Any", result_alias="group",
+                     requires=["isdict(group[0][1])"] + [inv.replace("self.", H + ".") for inv in ix.classes["histogram_scaled"].invariant],
+                     # `attempts to rescale a structure with ... zero scale raise an error` unless allow_zero_scale
+                     raises={"LenaValueError": "not self._allow_zero_scale and %s._scale == 0" % H},
+                     ensures=["old(%s._scale) != 0 implies %s._scale == self._scale_to" % (H, H),
+                              "old(%s._scale) == 0 implies %s._scale == 0" % (H, H),
+                              "group[0][1] == old(group[0][1])"],
+                     modifies=["%s.bins" % H, "%s.n_out_of_range" % H, "%s._scale" % H]),
+        ]))
+
+
+# ---------------------------------------------------------------------------------------------- DSum: the precision loop ends
+def register_dsum_termination(ix):
+    """DSum.fill once more, with a `decreases` argument for the loop `while True: try: add ... except Inexact: prec += 1`.
+    P_acc.py proves what the loop computes under the uninterpreted predicate dec_inexact (nothing assumed about it: no
+    termination).  Termination needs one more fact about the decimal library: Inexact is signalled iff the exact sum has
+    more significant digits than the precision, and that number of digits (dec_digits) is finite -- then
+    dec_digits(total + data) - prec is a bound that decreases with every retry and is positive whenever a retry happens."""
+    from pyvc import lib_acc2
+    lib_acc2.register_dec_digits(ix)
+    PAIR = "Tuple[Real,Dict]"
+
+    def case(name, valty, d, req):
+        return Contract(
+            ME, "DSum.fill", name="DSum.fill[%s, termination]" % name,
+            params={"self": "Self[DSum]", "value": valty}, requires=req,
+            loops={0: LoopSpec(invariant=["self._total == old(self._total)", "self._dcontext is old(self._dcontext)",
+                                          "self._dcontext.traps_inexact", "self._dcontext.prec >= old(self._dcontext.prec)",
+                                          "self._dcontext.prec <= max(old(self._dcontext.prec), dec_digits(old(self._total) + %s))" % d],
+                               decreases="dec_digits(old(self._total) + %s) - self._dcontext.prec" % d)},
+            ensures=["self._total == old(self._total) + %s" % d,
+                     # the precision ends at most at the number of digits of the exact sum (or where it was)
+                     "self._dcontext.prec <= max(old(self._dcontext.prec), dec_digits(old(self._total) + %s))" % d],
+            modifies=["self._total", "self._cur_context", "self._dcontext.prec"])
+    ix.add(Contract(ME, "DSum.fill", qualkey="DSum.fill#terminates", props=["C09"],
+                    cases=[case("(data, context)", PAIR, "value[0]", ["isdict(value[1])"]), case("bare data", "Real", "value", [])]))
+
+
+# ---------------------------------------------------------------------------------------------- Mean with a user sum_seq
+def register_mean_seq(ix):
+    """Mean(sum_seq): `sum_seq is the algorithm to calculate the sum.`  fill hands the data part to it; compute: `If the
+    sum_seq yields several values, they are all yielded, but only the first is divided by number of events (considered the mean
+    value)`; every yielded context is a new deep copy of the current context updated with the context of that result;
+    reset: `the reset method of sum_seq is called`, count to zero and context to {}.
+    The sum element is an abstract FillCompute element (el_fill / el_compute / el_reset) that is TRUE as an object (the view's
+    invariant: see the finding at the end); float() of a result's data part is an uninterpreted function (v_members)."""
+    MF = {"_sum_seq": "Obj", "_sum": "Real", "_pass_on_empty": "Bool", "_count": "Int", "_cur_context": "Dict"}
+    ix.add_class(ClassSpec("Mean_seq", ME, fields=MF, alias_of="Mean",
+                           invariant=["isdict(self._cur_context)", "self._count >= 0", "obj_truthy(self._sum_seq)"]))
+    ix.spec_names["obj_truthy"] = lambda ip, st, pos, kws: __import__("pyvc.sym", fromlist=["Bool"]).Bool(ip.truth(st, pos[0]))
+    E = "self._sum_seq"
+    ix.add(Contract(
+        ME, "Mean.fill", qualkey="Mean_seq.fill", props=["C09"], ghost={"elstate": True},
+        cases=[
+            Contract(ME, "Mean.fill", name="Mean.fill[sum_seq, (data, context)]", ghost={"elstate": True},
+                     params={"self": "Self[Mean_seq]", "value": "Tuple[V,Dict]"}, requires=["isdict(value[1])"],
+                     ensures=["elstate({e}) == el_fill({e}, old(elstate({e})), value[0])".format(e=E),
+                              "self._count == old(self._count) + 1", "self._cur_context is value[1]"],
+                     modifies=["self._count", "self._cur_context"]),
+        ]))
+    ix.add(Contract(
+        ME, "Mean.reset", qualkey="Mean_seq.reset", name="Mean.reset[sum_seq]", props=["C09"], ghost={"elstate": True},
+        params={"self": "Self[Mean_seq]"},
+        ensures=["elstate({e}) == el_reset({e})".format(e=E), "self._count == 0", "self._cur_context == emptydict()"],
+        modifies=["self._count", "self._cur_context"]))
+    # ---- compute
+    S = "el_compute({e}, elstate({e}))".format(e=E)                   # what the sum element yields now
+    CTX = "upd_spec(self._cur_context, vctx(%s[{j}]))" % S            # the context of result j: a copy of the current one, updated
+    MEAN = "vattr(dataof(%s[0]), '__float__') / self._count" % S
+    WITHC = "isinstance(yielded, tuple) and len(yielded) == 2"
+
+    def yielded_is(where, data, j):
+        c = CTX.format(j=j)
+        return ["%s and %s implies %s and yielded[0] == %s and yielded[1] == %s" % (where, c, WITHC, data, c),
+                "%s and not %s implies yielded == %s" % (where, c, data)]
+    ix.add(Contract(
+        ME, "Mean.compute", qualkey="Mean_seq.compute", name="Mean.compute[sum_seq]", props=["C09", "C04"],
+        ghost={"elstate": True, "v_members": {"__float__": "attr:Real"}}, dict_model="Val",
+        params={"self": "Self[Mean_seq]"}, generator=True, yields="Any",
+        raises={"LenaZeroDivisionError": "self._count == 0 and not self._pass_on_empty",
+                # (`assert sums`: a sum element that yields nothing)
+                "AssertionError": "self._count != 0 and len(%s) == 0" % S},
+        loops={0: LoopSpec(invariant=["yield_count() == _i + 1", "self._count != 0", "same(sums, %s)" % S])},
+        at_yield=[
+            # C04: a new context for every result, never the stored one
+            "not in_loop(0) and %s implies is_fresh(yielded[1]) and yielded[1] is not self._cur_context" % CTX.format(j="0"),
+            "in_loop(0) and %s implies is_fresh(yielded[1]) and yielded[1] is not self._cur_context and "
+            "made_in_iteration(yielded[1], 0)" % CTX.format(j="_i0 + 1")] +
+            # the first result is the mean; the others are handed on as they are
+            yielded_is("not in_loop(0)", MEAN, "0") + yielded_is("in_loop(0)", "dataof(%s[_i0 + 1])" % S, "_i0 + 1"),
+        ensures=["self._count == 0 implies yield_count() == 0",
+                 "self._count != 0 implies yield_count() == len(%s)" % S,
+                 "elstate({e}) == old(elstate({e}))".format(e=E), "self._cur_context == old(self._cur_context)"]))
+    # ---- __init__ with a sum element
+    RES = RESETTABLE.format(e="sum_seq")
+    MM = ["self._sum_seq", "self.reset", "self._sum", "self._pass_on_empty", "self._count", "self._cur_context"]
+    ix.add(Contract(
+        ME, "Mean.__init__", qualkey="Mean_seq.__init__", name="Mean.__init__[sum_seq]", props=["C09"],
+        params={"self": "Self[Mean0]", "sum_seq": "Obj", "pass_on_empty": "Bool"}, defaults={"pass_on_empty": False},
+        requires=["obj_truthy(sum_seq)"],
+        ensures=["self._sum_seq is sum_seq", "self._count == 0", "self._pass_on_empty == pass_on_empty",
+                 "self._cur_context == emptydict()", "obj_truthy(self._sum_seq)",
+                 # a sum element without reset(): the reset of the Mean says so (LenaAttributeError)
+                 "not %s implies self.reset is self._reset_missing" % RES,
+                 "%s implies self.reset is class_method(self, 'reset')" % RES],
+        modifies=MM))
+    ix.add(Contract(ME, "Mean._reset_missing", props=["C09"], params={"self": "Self[Mean_seq]"},
+                    raises={"LenaAttributeError": "True"}))
+    # ---- lemma: reset() forgets the history (the sum element in its el_reset state, count 0, context {})
+    from contracts.P_acc import reset_forgets_history
+    ix.lemmas.append(Lemma(
+        "Mean[sum_seq]: reset() forgets the history", ME, ["C09"],
+        reset_forgets_history("Mean_seq", "reset", ["_sum_seq"], ["self._count", "self._cur_context", "elstate(self._sum_seq)"]),
+        notes="over the contract of reset: two elements with the same sum element and arbitrary histories agree afterwards on "
+              "count, context and the state of the sum element (its el_reset state: that of a new one, DESIGN 2.3) -- what "
+              "__init__[sum_seq] establishes besides (count 0, context {})"))
+    # ---- FINDING on the unchanged tree (props=[]): a sum element that is FALSE as an object (its class defines __bool__ /
+    # __len__): __init__, fill and compute test `if sum_seq:` and use the internal sum, reset tests `is not None` and calls
+    # sum_seq.reset() -- the internal sum survives reset(): `Sum is reset zero (or the reset method of sum_seq is called)`
+    ix.add_class(ClassSpec("Mean_falsy", ME, fields=MF, alias_of="Mean",
+                           invariant=["isdict(self._cur_context)", "self._count >= 0", "not obj_truthy(self._sum_seq)"]))
+    ix.add(Contract(
+        ME, "Mean.reset", qualkey="Mean_falsy.reset", name="Mean.reset[sum_seq that is false as an object] (FAILS: new finding)",
+        props=[], ghost={"elstate": True}, params={"self": "Self[Mean_falsy]"},
+        ensures=["self._sum == 0", "self._count == 0", "self._cur_context == emptydict()"],
+        modifies=["self._sum", "self._count", "self._cur_context"]))
